@@ -18,6 +18,9 @@ def units():
     return [
         Unit("bilinear_d00", P + "bilinear_d00", F, "depth 0, all cells, all offsets in [0,1]^2: weights >= 0, cells among {cell} U neighbours, cell present, quadrant corner used, missing corner weighs 0", timeout=900, level="B", bound="depth 0", extra=nn),
         Unit("bilinear_center_d00", P + "bilinear_center_d00", F, "depth 0, offsets (0.5, 0.5): weight of the cell == 1, neighbours weigh 0", timeout=900, level="B", bound="depth 0", extra=nn),
+        Unit("bilinear_grid_d00", P + "bilinear_grid_d00", F, "depth 0, all cells, offsets on the dyadic grid k/8: weights sum to 1 exactly; each weight equals the bilinear formula, a missing corner's weight is shared equally between the two side cells", timeout=900, level="B", bound="depth 0, offsets in {0,1/8,..,1}^2", extra=nn),
+        Unit("bilinear_grid_search_d01", P + "bilinear_grid_d01", F, "depth 1: same on the dyadic grid; time-bounded refutation search", kind="search", timeout=300, extra=nn),
+        Unit("bilinear_grid_search_d29", P + "bilinear_grid_d29", F, "depth 29: same; search", kind="search", timeout=300, extra=nn),
         Unit("bilinear_search_d01", P + "bilinear_d01", F, "depth 1: same obligations, time-bounded refutation search", kind="search", timeout=240, extra=nn),
         Unit("bilinear_search_d02", P + "bilinear_d02", F, "depth 2: same, search", kind="search", timeout=240, extra=nn),
         Unit("bilinear_search_d29", P + "bilinear_d29", F, "depth 29: same, search", kind="search", timeout=240, extra=nn),
